@@ -110,7 +110,9 @@ func FindAnchors(prog *Program) *Anchors {
 			continue
 		}
 		switch {
-		case isBoolErr(sig) && namedIs(p0, grammarPath, "Expression") && a.Dispatch == nil:
+		case isBoolErr(sig) && namedIs(p0, grammarPath, "Expression") && (a.Dispatch == nil || (a.Dispatch.Signature.Recv() != nil && sig.Recv() == nil)):
+			// the dispatcher is the entry the rest of the package calls: a plain function is preferred over a method it
+			// may delegate to
 			a.Dispatch = f
 		case isBoolErr(sig) && namedIs(p0, grammarPath, "MatchExpression") && sig.Params().Len() >= 2 && namedIs(sig.Params().At(1).Type(), "reflect", "Value"):
 			a.Matchers = append(a.Matchers, f)
@@ -329,4 +331,52 @@ func matcherCallOperands(st *pstate, ev *Event) (expr, value *Sym) {
 		return nil, nil
 	}
 	return ev.Args[n-2], ev.Args[n-1]
+}
+
+// dispatchDelegates: module functions the dispatcher hands its own node parameter to (the body of a dispatcher written as
+// a method of a struct that carries the constant arguments).
+func dispatchDelegates(prog *Program, a *Anchors) map[*ssa.Function]bool {
+	out := map[*ssa.Function]bool{}
+	fn := a.Dispatch
+	if fn == nil || len(fn.Params) == 0 {
+		return out
+	}
+	for _, b := range fn.Blocks {
+		for _, ins := range b.Instrs {
+			c, ok := ins.(*ssa.Call)
+			if !ok {
+				continue
+			}
+			g := c.Call.StaticCallee()
+			if g == nil || g == fn || !prog.InModule(g) || !isBoolErr(g.Signature) {
+				continue
+			}
+			for _, arg := range c.Call.Args {
+				if arg == ssa.Value(fn.Params[0]) {
+					out[g] = true
+				}
+			}
+		}
+	}
+	return out
+}
+
+// argsCarry: one of the arguments is the value k, or a struct value one of whose fields is.
+func argsCarry(args []*Sym, k *Sym) bool {
+	for _, x := range args {
+		if x == nil {
+			continue
+		}
+		if x.Key() == k.Key() {
+			return true
+		}
+		if x.K == sStruct {
+			for _, f := range x.F {
+				if f != nil && f.Key() == k.Key() {
+					return true
+				}
+			}
+		}
+	}
+	return false
 }
